@@ -45,7 +45,7 @@
 package symterp
 
 import (
-	"strings"
+
 	"fmt"
 	"go/token"
 	"go/types"
@@ -328,7 +328,7 @@ func visitInstr(fr *frame, instr ssa.Instruction) continuation {
 		fr.env[instr] = makeMap(instr.Type().Underlying().(*types.Map).Key(), reserve)
 
 	case *ssa.Range:
-		rangeSchedule = fr.fn.Pkg != nil && isUser(fr.fn.Pkg.Pkg.Path()) && !strings.HasPrefix(fr.fn.Name(), "Verif") && !strings.HasPrefix(fr.fn.Name(), "h")
+		rangeSchedule = isZogPkg(fnPkgPath(fr.fn))
 		if ss, ok := fr.get(instr.X).(symStr); ok {
 			fr.env[instr] = &symStrIter{fr: fr, s: ss}
 			break
@@ -542,9 +542,11 @@ func callSSA(i *interpreter, caller *frame, callpos token.Pos, fn *ssa.Function,
 	if fn.Parent() == nil {
 		name := fn.String()
 		if fn.Name() == "init" && fn.Pkg != nil && !isUser(fn.Pkg.Pkg.Path()) && !initAllowed[fn.Pkg.Pkg.Path()] {
-			return nil // stdlib package init is not interpreted
+			return nil // this package's init is not interpreted (reads of its globals see zero values)
 		}
-		if ext := externals[name]; ext != nil {
+		if noExternalFor == fn {
+			noExternalFor = nil
+		} else if ext := externals[name]; ext != nil {
 			if i.mode&EnableTracing != 0 {
 				fmt.Fprintln(os.Stderr, "\t(external)")
 			}
@@ -560,6 +562,15 @@ func callSSA(i *interpreter, caller *frame, callpos token.Pos, fn *ssa.Function,
 		panic("interp requires ssa.BuilderMode to include InstantiateGenerics to execute generics")
 	}
 
+	if cur != nil {
+		if pp := fnPkgPath(fn); isZogPkg(pp) {
+			cur.funcs[fn.String()] = true
+		}
+		cur.steps += len(fn.Blocks)
+	}
+	if len(CallStack) > 600 {
+		panic(pathAbort{"engine: call depth budget exceeded"})
+	}
 	CallStack = append(CallStack, fn.String())
 	defer func() { if recover_keep := recover(); recover_keep != nil { panic(recover_keep) }; CallStack = CallStack[:len(CallStack)-1] }()
 	fr.env = make(map[ssa.Value]value)
@@ -608,8 +619,12 @@ func runFrame(fr *frame) {
 		if fr.i.mode&DisableRecover != 0 {
 			return // let interpreter crash
 		}
+		r := recover()
+		if pa, ok := r.(pathAbort); ok {
+			panic(pa)
+		}
 		fr.panicking = true
-		fr.panic = recover()
+		fr.panic = r
 		if fr.i.mode&EnableTracing != 0 {
 			fmt.Fprintf(os.Stderr, "Panicking: %T %v.\n", fr.panic, fr.panic)
 		}
@@ -789,3 +804,23 @@ func Interpret(mainpkg *ssa.Package, mode Mode, sizes types.Sizes, filename stri
 }
 
 var CallStack []string
+
+// callSSABody runs fn's own SSA body even if an external is registered for it.
+var noExternalFor *ssa.Function
+
+func callSSABody(i *interpreter, caller *frame, fn *ssa.Function, args []value) value {
+	noExternalFor = fn
+	return callSSA(i, caller, token.NoPos, fn, args, nil)
+}
+
+func fnPkgPath(fn *ssa.Function) string {
+	for f := fn; f != nil; f = f.Parent() {
+		if f.Pkg != nil {
+			return f.Pkg.Pkg.Path()
+		}
+		if o := f.Origin(); o != nil && o.Pkg != nil {
+			return o.Pkg.Pkg.Path()
+		}
+	}
+	return ""
+}
